@@ -2,6 +2,7 @@ SPECIFICATION Spec
 CONSTANTS
   Pres = {"fresh", "offerer", "answerer"}
   Modes = {"WebRtc", "Srtp", "Rtp"}
+  Medias = {"av"}
   LocalClasses = {"fresh", "changed", "unchanged"}
   RemoteClasses = {"fresh", "changed", "unchanged", "nofp", "badalg", "mid65535"}
   MaxLen = 6
